@@ -809,6 +809,8 @@ def main(tier, seed):
     run.expected_min_obligations = 500
     run.level_claim = 'other'      # a known finding (Bulgarian table rows) keeps one ground obligation refuted
     run.explanation = 'see DESIGN §5 C11'
+    from pyvc.frames import frame_obligations
+    frame_obligations(run, [_ty().tyrving_score, real_module('athlib.qkids_score').qkids_score, _sh().sportshall_score, _bg().score])
     run.assume('pyvc proxies/rewrites; float proxy = exact affine value + certified error (IEEE-754 binary64, round-to-nearest)',
                'z3 soundness', 'marks are on the 0.01 grid (k/100, k integer) given as the nearest double, an int, or text')
     qk = real_module('athlib.qkids_score')
